@@ -110,29 +110,45 @@ func runW3(s *core.Shard, next func(string) bool) {
 			one(fmt.Sprintf("extends-cycle/%d/%d", length, layout), c, expect{MustFail: true, Why: fmt.Sprintf("extends cycle of length %d (layout %d)", length, layout)})
 		}
 	}
-	// (c) include cycles of length 1..3
+	// (c) include cycles of length 1..3; style 0: short / {path:} syntax, 1: long syntax with
+	// project_directory on every edge, 2: the edge is the second (override) entry of a path list
 	for length := 1; length <= 3; length++ {
 		for layout := 0; layout < 2; layout++ {
-			c := &ld.Case{Files: map[string]string{}, ComposeFiles: []string{"compose.yaml"}}
-			fileOf := func(i int) string {
-				if i == 0 {
-					return "compose.yaml"
+			for style := 0; style < 3; style++ {
+				c := &ld.Case{Files: map[string]string{}, ComposeFiles: []string{"compose.yaml"}}
+				fileOf := func(i int) string {
+					if i == 0 {
+						return "compose.yaml"
+					}
+					if layout == 0 {
+						return fmt.Sprintf("inc%d.yaml", i)
+					}
+					return fmt.Sprintf("dir%d/compose.yaml", i)
 				}
-				if layout == 0 {
-					return fmt.Sprintf("inc%d.yaml", i)
+				for i := 0; i < length; i++ {
+					j := (i + 1) % length
+					rel, _ := filepath.Rel(filepath.Dir(fileOf(i)), fileOf(j))
+					inc := rel
+					switch style {
+					case 0:
+						if i%2 == 1 {
+							inc = "{path: " + rel + "}"
+						}
+					case 1:
+						inc = "{path: " + rel + ", project_directory: .}"
+					case 2:
+						leaf := filepath.Join(filepath.Dir(fileOf(i)), fmt.Sprintf("leaf%d.yaml", i))
+						c.Files[leaf] = fmt.Sprintf("services:\n  l%d:\n    image: i\n", i)
+						inc = fmt.Sprintf("{path: [%s, %s]}", filepath.Base(leaf), rel)
+					}
+					c.Files[fileOf(i)] = fmt.Sprintf("include:\n  - %s\nservices:\n  s%d:\n    image: i\n", inc, i)
 				}
-				return fmt.Sprintf("dir%d/compose.yaml", i)
+				id := fmt.Sprintf("include-cycle/%d/%d", length, layout)
+				if style > 0 {
+					id += fmt.Sprintf("/%d", style)
+				}
+				one(id, c, expect{MustFail: true, Why: fmt.Sprintf("include cycle of length %d (layout %d, style %d)", length, layout, style)})
 			}
-			for i := 0; i < length; i++ {
-				j := (i + 1) % length
-				rel, _ := filepath.Rel(filepath.Dir(fileOf(i)), fileOf(j))
-				inc := rel
-				if i%2 == 1 {
-					inc = "{path: " + rel + "}"
-				}
-				c.Files[fileOf(i)] = fmt.Sprintf("include:\n  - %s\nservices:\n  s%d:\n    image: i\n", inc, i)
-			}
-			one(fmt.Sprintf("include-cycle/%d/%d", length, layout), c, expect{MustFail: true, Why: fmt.Sprintf("include cycle of length %d (layout %d)", length, layout)})
 		}
 	}
 	// (d) depends_on: every digraph with a cycle on <= 4 services
